@@ -93,6 +93,7 @@ type Conn struct {
 	stalled      bool
 	maxRead      int // if >0, a Read returns at most this many bytes
 	broken       bool
+	writeStall   bool // writes block (the peer has stopped reading and its window is full)
 }
 
 // Pipe creates a connected pair; writes are logged in l under the endpoint names.
@@ -200,8 +201,25 @@ func (c *Conn) Read(p []byte) (int, error) {
 	}
 }
 
+// StallWrites makes the writes of this endpoint block, as if the peer had stopped reading and
+// every buffer in between were full. They resume when the stall is lifted and fail when this
+// endpoint or its peer is closed.
+func (c *Conn) StallWrites(on bool) {
+	c.mu.Lock()
+	c.writeStall = on
+	c.cond.Broadcast()
+	c.mu.Unlock()
+}
+
 func (c *Conn) Write(p []byte) (int, error) {
 	c.mu.Lock()
+	for c.writeStall && !c.closed && !c.inClosed {
+		c.cond.Wait()
+	}
+	if c.writeStall && c.inClosed && !c.closed {
+		c.mu.Unlock()
+		return 0, ErrWriteFault
+	}
 	if c.closed {
 		c.mu.Unlock()
 		return 0, net.ErrClosed
